@@ -64,7 +64,8 @@ def gen(rng, tier):
             r = rng.random()
             if r < 0.2: v = b""
             elif r < 0.8: v = rng.choice([b"one", b"two words", b"3", b"x"])
-            else: v = rng.choice([b"first", b"a"]) + b"\n  " + rng.choice([b"second", b"b c"])
+            elif r < 0.9: v = rng.choice([b"first", b"a"]) + b"\n  " + rng.choice([b"second", b"b c"])
+            else: v = b"\n  " + rng.choice([b"second", b"b c"]) + rng.choice([b"", b"\n\tthird"])        # nothing behind the delimiter, text on the next line
             lines.append(k + (b"=" if rng.random() < 0.5 else b" = ") + v)
             defs.setdefault((cur, k), []).append(v)
         content = b"\n".join(lines) + b"\n"
